@@ -89,6 +89,7 @@ fn main() {
         "C13" => props::c13::run(tier),
         "C14" => props::c14::run(tier),
         "C16" => props::c16::run(tier),
+        "C17" => props::c17::run(tier),
         _ => {
             eprintln!("unknown check {id}");
             2
